@@ -116,6 +116,12 @@ func (t *DestinationTask) Do(ctx context.Context, batch *Batch) error {
 			break
 		}
 	}
+	if ackCount < len(positions) {
+		// the destination answered, but with responses that carry fewer acks
+		// than records were written (e.g. responses without any ack): the
+		// remaining records are not confirmed and must not count as acked
+		return cerrors.Errorf("destination acknowledged only %d of %d records", ackCount, len(positions))
+	}
 
 	return nil
 }
